@@ -159,6 +159,42 @@ pub use self::neon::*;
 pub mod verif {
     use crate::iter::Bytes;
 
+    #[cfg(all(
+        httparse_simd,
+        not(any(httparse_simd_target_feature_sse42, httparse_simd_target_feature_avx2)),
+        any(target_arch = "x86", target_arch = "x86_64"),
+    ))]
+    pub const HAS_RUNTIME: bool = true;
+    #[cfg(not(all(
+        httparse_simd,
+        not(any(httparse_simd_target_feature_sse42, httparse_simd_target_feature_avx2)),
+        any(target_arch = "x86", target_arch = "x86_64"),
+    )))]
+    pub const HAS_RUNTIME: bool = false;
+
+    /// Sets the cached runtime-detection cell (0 = not yet detected). No-op when the
+    /// build has no runtime dispatch.
+    pub fn set_runtime_feature(_v: u8) {
+        #[cfg(all(
+            httparse_simd,
+            not(any(httparse_simd_target_feature_sse42, httparse_simd_target_feature_avx2)),
+            any(target_arch = "x86", target_arch = "x86_64"),
+        ))]
+        super::runtime::verif_set_runtime_feature(_v);
+    }
+
+    /// Reads the cached runtime-detection cell; 0xFF when the build has none.
+    pub fn get_runtime_feature() -> u8 {
+        #[cfg(all(
+            httparse_simd,
+            not(any(httparse_simd_target_feature_sse42, httparse_simd_target_feature_avx2)),
+            any(target_arch = "x86", target_arch = "x86_64"),
+        ))]
+        return super::runtime::verif_get_runtime_feature();
+        #[allow(unreachable_code)]
+        0xFF
+    }
+
     pub fn dispatch_uri(b: &mut Bytes<'_>) {
         super::match_uri_vectored(b)
     }
